@@ -203,12 +203,19 @@ def _tla_unescape(s):
     return "".join(out)
 
 
+TLA_CP = os.environ.get("VERIF_TLA_CP", "/opt/veriftools/tla/tla2tools.jar:/opt/veriftools/tla/CommunityModules-deps.jar")
+
+
 def tlc(module, cfg, workers=8, timeout=3600, simulate=None, depth=None, env=None, check_deadlock=False,
         name=None, extra_java=None, want_replay=True, coverage=False):
     """Runs TLC. Returns dict(states, distinct, replay=[...], out=stdout, ok=bool, coverage={action: count})."""
     name = name or (os.path.splitext(os.path.basename(cfg))[0])
     wd = workdir("tlc_" + name)
-    cmd = ["tlc", "-workers", str(workers), "-config", os.path.join(SPEC, cfg), "-metadir", os.path.join(wd, "states"),
+    # java is invoked directly (not through the `tlc` wrapper) because the stack size of the MAIN thread - which
+    # evaluates the initial states and their invariants - is only taken from -Xss on the command line; with
+    # JAVA_TOOL_OPTIONS alone deep recursive operators overflowed it, depending on JIT timing
+    xss = os.environ.get("VERIF_TLC_XSS", "256m")
+    cmd = ["java", "-Xss" + xss, "-XX:+UseParallelGC", "-cp", TLA_CP, "tlc2.TLC", "-workers", str(workers), "-config", os.path.join(SPEC, cfg), "-metadir", os.path.join(wd, "states"),
            "-cleanup", "-noGenerateSpecTE", "-seed", str(SEED)]
     if coverage:
         cmd += ["-coverage", "1"]
@@ -220,7 +227,7 @@ def tlc(module, cfg, workers=8, timeout=3600, simulate=None, depth=None, env=Non
         cmd += ["-deadlock"]
     cmd.append(os.path.join(SPEC, module))
     e = dict(os.environ)
-    jopts = "-Xss" + os.environ.get("VERIF_TLC_XSS", "128m")
+    jopts = "-Xss" + xss
     if extra_java:
         jopts += " " + extra_java
     e["JAVA_TOOL_OPTIONS"] = jopts
@@ -269,10 +276,11 @@ def tlc_trace(module, cfg, trace_path, name=None, timeout=1800):
     Returns dict(records, bad=[[unit id, index of first unmatched record]...], states, transitions)."""
     name = name or ("trace_" + os.path.splitext(os.path.basename(trace_path))[0])
     wd = workdir("tlc_" + name)
-    cmd = ["tlc", "-workers", "1", "-config", os.path.join(SPEC, cfg), "-metadir", os.path.join(wd, "states"),
+    cmd = ["java", "-Xss1g", "-Xmx4g", "-XX:+UseParallelGC", "-Dtlc2.tool.queue.IStateQueue=StateDeque", "-cp", TLA_CP, "tlc2.TLC",
+           "-workers", "1", "-config", os.path.join(SPEC, cfg), "-metadir", os.path.join(wd, "states"),
            "-cleanup", "-noGenerateSpecTE", os.path.join(SPEC, module)]
     e = dict(os.environ)
-    e["JAVA_TOOL_OPTIONS"] = "-Xss1g -Xmx4g -Dtlc2.tool.queue.IStateQueue=StateDeque"
+    e["JAVA_TOOL_OPTIONS"] = "-Xss1g"
     e["TRACE"] = trace_path
     try:
         r = subprocess.run(cmd, cwd=wd, env=e, capture_output=True, text=True, timeout=timeout)
@@ -385,6 +393,17 @@ class Report:
         log("[%s] %s: %d new violation signature(s), %d known finding(s) hit, %.1fs" %
             (self.prop, "FAIL" if rc else "ok", len(new), len(known_hit), time.time() - self.t0))
         return rc
+
+
+def deviation_caught(module, cfg, invariant, cov=None):
+    """Spec-level self test: with the named deviation enabled (cfg) TLC must report `invariant` violated.
+    Otherwise the specification could not tell the faulty design from the right one: tool error."""
+    r = tlc(module, cfg, workers=4, want_replay=False)
+    if invariant not in re.findall(r"Invariant (\w+) is violated", r["out"]):
+        raise ToolError("deviation configuration %s is not caught by invariant %s" % (cfg, invariant))
+    if cov is not None:
+        cov["states"] += r.get("states", 0)
+        cov.setdefault("deviations_caught_by_spec", []).append("%s: %s" % (cfg, invariant))
 
 
 def main_wrapper(fn):
